@@ -23,7 +23,7 @@ MODES = {"quick": ["jit", "nojit"], "thorough": ["jit", "nojit", "bounds"], "sea
 RULE = ("files are rendered from a cell grammar {empty, plain, leading/trailing blank, blank only, quoted separator, quoted "
         "doubled quote, quoted newline, quoted blank, needlessly quoted, multi-byte UTF-8} with or without a final newline. "
         "Exhaustive (seed independent): all files of <=2 columns x <=2 rows over 7 cell kinds (quick: every 3rd case of the "
-        "2x2 shape; thorough: all, plus every 5th file of 2x3 and 3x2 over 5 kinds) x every chunk_row_size from the smallest supported one upwards (window = 2*crs*columns bytes; includes boundaries "
+        "2x2 shape; thorough: all, plus every 2nd file of 2x3 and 3x2 over 5 kinds) x every chunk_row_size from the smallest supported one upwards (window = 2*crs*columns bytes; includes boundaries "
         "inside quoted cells, between the two quotes of an escaped quote and exactly at record ends) x per-column value budgets "
         "{1, 2, ample}; all-empty-cell files (index buffer fills before the window ends); kernel-level: every byte string over "
         "{x , \" \\n blank} up to length 6 (quick) / 7 (thorough) with and without header, entry at every offset. Seeded random: "
@@ -260,7 +260,7 @@ def gen_cases(tier, rng):
     quick = tier == "quick"
     # ---- 1. exhaustive small files through the driver: every supported crs near the boundary, tiny and ample budgets
     #         (kinds, max columns, max rows, keep every n-th file of the largest shape, all crs between lo and hi?)
-    scopes = [(K7, 2, 2, 1, False)] if quick else [(K7, 2, 2, 1, True), (K5, 2, 3, 5, False), (K5, 3, 2, 5, False)]
+    scopes = [(K7, 2, 2, 1, False)] if quick else [(K7, 2, 2, 1, True), (K5, 2, 3, 2, False), (K5, 3, 2, 2, False)]
     n = 0
     seen_files = set()
     for kinds, mc, mr, step, allcrs in scopes:
@@ -301,7 +301,7 @@ def gen_cases(tier, rng):
                     if supported(data, crs, ncols):
                         cases.append(mk_driver(data, ncols, crs, [1] * ncols))
     # ---- 3. the public path: read_csv_with_schema_dict into HDF5 (indexed and fixed columns, include / exclude)
-    cases.extend(import_cases(rng, 150 if quick else 1500))
+    cases.extend(import_cases(rng, 150 if quick else 3000))
     # ---- 4. kernel level: every byte string over a 5-letter alphabet, header or not, ample and tiny budgets
     alpha = [ord("x"), SEPB, Q, NLB, WSB]
     maxlen = 6 if quick else 7
@@ -327,8 +327,8 @@ def gen_cases(tier, rng):
             cases.append(mk_kernel(data[:cut], a, ncols, maxrow, [rng.choice([1, 3, 40]) for _ in range(ncols)],
                                    a == 0, inds=inds))
     # ---- 6. seeded random files through the driver
-    for t in range(400 if quick else 6000):
-        cases.append(random_driver_case(rng, big=(t % 50 == 0), huge=(not quick and t % 1500 == 7)))
+    for t in range(400 if quick else 12000):
+        cases.append(random_driver_case(rng, big=(t % 50 == 0), huge=(not quick and t % 3000 == 7)))
     return cases
 
 
